@@ -352,7 +352,7 @@ def check_main(args):
         agg[t[0]]['inconclusive'].append(dict(kind='WorkerLost', msg=why, prefix=t[1], where=[]))
 
     for n, a in agg.items():
-        a['done'] = (outstanding[n] == 0) and not timed_out and not any(t[0] == n for t, _ in lost)
+        a['done'] = (outstanding[n] == 0) and not any(t[0] == n for t, _ in lost)
 
     wall_explore = time.time() - t0
     # ---------------- classify
